@@ -15,7 +15,7 @@ from harness import runs, runcommon
 from harness.drive import f2b
 
 ID = "C17"
-THEOREM_MODULES = ["JF.Props.C17", "JF.Props.C17Float", "JF.Props.SystemInv", "JF.Props.C17System", "JF.Props.Output"]
+THEOREM_MODULES = ["JF.Props.C17", "JF.Props.C17Float", "JF.Props.SystemInv", "JF.Props.C17System", "JF.Props.Output", "JF.Props.OutputFloat"]
 NEEDS_GEN = True
 COMPONENTS = ["time", "output"]
 ASSUMPTIONS = ["theorems are the exact (rational) reading: t_k = k*interval, sample count = #{k | t_k < T_end}, sampled out-state fully "
